@@ -2,7 +2,6 @@ use crate::analysis::serde_parser::SerdeParser;
 use crate::analysis::type_resolver::TypeResolver;
 use crate::analysis::validator_parser::ValidatorParser;
 use crate::models::{FieldInfo, StructInfo};
-use quote::ToTokens;
 use std::path::Path;
 use syn::{Attribute, ItemEnum, ItemStruct, Type, Visibility};
 
@@ -47,9 +46,18 @@ impl StructParser {
     fn should_include(&self, attr: &Attribute) -> bool {
         if let Ok(meta_list) = attr.meta.require_list() {
             if meta_list.path.is_ident("derive") {
-                let tokens_str = meta_list.to_token_stream().to_string();
-
-                tokens_str.contains("Serialize") || tokens_str.contains("Deserialize")
+                // Look at the derived trait paths themselves (`Serialize`, `serde::Deserialize`),
+                // not at the text of the list, so `SerializeDisplay` or `MySerialize` do not count
+                let mut derives_serde = false;
+                let _ = meta_list.parse_nested_meta(|meta| {
+                    if let Some(segment) = meta.path.segments.last() {
+                        if segment.ident == "Serialize" || segment.ident == "Deserialize" {
+                            derives_serde = true;
+                        }
+                    }
+                    Ok(())
+                });
+                derives_serde
             } else {
                 false
             }
